@@ -64,6 +64,9 @@ def run(chk, tier):
         order = [('n' if c in nexts else 'u') for c in calls if c in nexts or c in upds]
         if ''.join(order).replace('nu', '') not in ('', 'n'):
             ok8, why8 = False, 'fetch / aggregate calls are not paired (%s)' % ''.join(order)
+        if o.kind == 'return' and not nexts and not any(re.search(r'::for_each$', c[1]) for c in calls):
+            ok8, why8 = False, 'a trace returns without visiting the probes of the round at all (decisions %s): a whole published round would be missing from the per-hop totals' % (
+                [(vshow(a)[:60], v) for a, v, _ in o.st.decisions][-2:])
         for c in upds:
             n_upd += 1
             if not re.fullmatch(r'field:0\(call:\w+::next\(.*\)\)', vshow(c[7][1])):
